@@ -23,6 +23,8 @@ ENGINES = [
      "kind_free_text": "fixed-point axioms of the default float operators and constants + special-value class table, evaluated by TLC on recorded values"},
     {"name": "piecewise-judge", "path": "spec/Piecewise.tla spec/Judge_ValDiff.tla", "serves_properties": ["C18"],
      "kind_free_text": "power-series judge with exact rational branch selection for value-typed piecewise derivatives read through the dump hook"},
+    {"name": "threads-model", "path": "spec/Threads.tla spec/Judge_Threads.tla harness_sendsync/", "serves_properties": ["C20"],
+     "kind_free_text": "interleaving model with the lazy-static once-cell; per-event trace validation of multi-thread recordings; compile-time Send/Sync assertions"},
     {"name": "recorder", "path": "harness/", "serves_properties": ["C01", "C02", "C03"],
      "kind_free_text": "Rust crate driving the real exmex with a free term algebra as data type and run-time operator tables; records observations as ndjson"},
     {"name": "judge", "path": "spec/Judge_Expr.tla", "serves_properties": ["C01", "C02", "C03"],
@@ -101,5 +103,8 @@ CLAIMS = {
     "C19": dict(category="other", technique="axiomatic TLA+ characterisation of the float operators in fixed point (FloatSem.tla), evaluated by TLC on values recorded from the real operator table",
                 text="Every one of the 34 operators and 6 constants of FloatOpsFactory for f32 and f64 is applied on a grid and on special values, directly and through parsed infix/call-form expressions; TLC checks each result against exact fixed-point arithmetic, Taylor polynomials or the defining equation of the named function (incl. argument order and quadrant of atan2, principal ranges of the inverse functions, natural log for log and ln) at a tolerance of 3e-3, and special values against a class table.",
                 note="Not decided: accuracy to within floating-point rounding (the technique has no floats) - identity/argument order/special classes only. Trusted: TLC, FloatSem.tla, the recorder's rounding to fixed point."),
+    "C20": dict(category=MC, technique="TLA+ interleaving model (clients, shared immutable pool, once-cell of the lazy regexes) checked exhaustively by TLC incl. liveness + Send/Sync decided by the Rust type checker + trace validation of recorded 16-thread runs (events validated in isolation)",
+                text="Threads.tla: all interleavings of 3-4 clients give sequential results, the pool is immutable, the regex cell is initialised once, no deadlock, all clients finish. Real code: a separate crate asserts Send + Sync for FlatEx/DeepEx/FlatExVal at compile time; fresh 16-thread processes race on first-use parsing and evaluate shared expressions, every event must equal the sequential function of its arguments (reference semantics for the symbolic type, bit-identical sequential re-run for f64), structural dumps before/after are identical.",
+                note="Real schedules are sampled, not enumerated; the every-schedule claim rests on the type checker plus the validated absence of state change. Trusted: TLC, the reference spec, std::thread."),
 }
 NOT_YET = {}
